@@ -334,6 +334,11 @@ func canonBodyID(ts []wtok, hasID bool) (code string, body string) {
 	if len(ts) > 0 && ts[0].Prim == "type" {
 		code = ts[0].Field
 		i = 1
+	} else if hasID && len(ts) > 1 && ts[0].Prim == "u8" && strings.HasPrefix(ts[0].Field, "const(") && ts[1].Prim == "u32" && strings.HasPrefix(ts[1].Field, "param:") {
+		// the packet header written out field by field (a constant type byte, then the caller's request id) instead of
+		// through StartPacket
+		code = ts[0].Field
+		i = 1
 	}
 	if hasID && i < len(ts) && ts[i].Prim == "u32" { // the request id
 		i++
@@ -699,7 +704,62 @@ func runC06(c *Ctx) {
 					}
 				}
 			})
-			c.check(be, "R5", "StatVFS big endian", p.Pos(mp.Pos()), "binary.Write(…, BigEndian, p)", "the statvfs reply is not written big-endian")
+			if !be {
+				// written out by hand with the package's big-endian primitives: the id, then the eleven members in
+				// OpenSSH's order — one call each, or a loop over an array literal of them
+				var order []string
+				okHand := false
+				var idFirst bool
+				for _, cl := range callsWhere(mp, func(cc *ssa.CallCommon) bool { return calleeName(cc) == "marshalUint32" }) {
+					if srcField(callOf(cl).Args[1]) == "ID" {
+						idFirst = true
+					}
+				}
+				u64 := callsWhere(mp, func(cc *ssa.CallCommon) bool { return calleeName(cc) == "marshalUint64" })
+				if len(u64) == 11 {
+					for _, cl := range u64 {
+						order = append(order, srcField(callOf(cl).Args[1]))
+					}
+				} else if len(u64) == 1 && inLoop(u64[0]) {
+					var arrV ssa.Value
+					switch x := callOf(u64[0]).Args[1].(type) {
+					case *ssa.UnOp:
+						if ia, ok := x.X.(*ssa.IndexAddr); ok && x.Op == token.MUL {
+							arrV = ia.X
+						}
+					case *ssa.Index:
+						arrV = x.X
+						if ld, ok := arrV.(*ssa.UnOp); ok && ld.Op == token.MUL {
+							arrV = ld.X
+						}
+					}
+					{
+						{
+							if arr, ok := arrV.(*ssa.Alloc); ok {
+								byIdx := map[int64]string{}
+								eachInstr(mp, func(in ssa.Instruction) {
+									if st, ok := in.(*ssa.Store); ok {
+										if sa, ok := st.Addr.(*ssa.IndexAddr); ok && sa.X == ssa.Value(arr) {
+											if k, ok := constInt(sa.Index); ok {
+												byIdx[k] = srcField(st.Val)
+											}
+										}
+									}
+								})
+								for i := int64(0); i < int64(len(byIdx)); i++ {
+									order = append(order, byIdx[i])
+								}
+							}
+						}
+					}
+				}
+				wantOrder := []string{"Bsize", "Frsize", "Blocks", "Bfree", "Bavail", "Files", "Ffree", "Favail", "Fsid", "Flag", "Namemax"}
+				okHand = idFirst && strings.Join(order, ",") == strings.Join(wantOrder, ",")
+				c.check(okHand, "R5", "StatVFS big endian", p.Pos(mp.Pos()), "id and the eleven members written with marshalUint32/marshalUint64 in OpenSSH's order",
+					"the statvfs reply is neither written by binary.Write(…, BigEndian, p) nor field by field in OpenSSH's order: members are written as "+strings.Join(order, ","))
+			} else {
+				c.check(be, "R5", "StatVFS big endian", p.Pos(mp.Pos()), "binary.Write(…, BigEndian, p)", "the statvfs reply is not written big-endian")
+			}
 		} else {
 			c.missing("R5", "(*StatVFS).marshalPacket")
 		}
